@@ -52,7 +52,7 @@ CHECKS = {
          "State = program prefix, transition = append one node instance (template x every wiring x output naming scheme). All programs of depth <= 2 over 16 templates (~186k programs incl. two nodes of the same operator type with different attributes, fan-out/fan-in, optional inputs absent by omission or by empty name, multi-output nodes with arbitrary / permuted / partly omitted output names, initializers that are also graph inputs) and depth-3 chains over a reduced alphabet are marshalled to bytes, loaded with NewModelFromBytes and Run with every intermediate value declared as graph output; each declared output must be present, non-nil and equal to the reference environment.",
          "Trusted: the reference node evaluator (refeval.go over /verif/mc/ref). Depth and tensor sorts are bounded (shapes (2,2),(2,1,2),(1,1,2)); every trace is an implementation trace, so traces_validated_against_impl = programs executed.", "DESIGN.md §3 (row C01)"),
  "C02": ("model_checking", "E3", "explicit enumeration of ALL call histories up to a depth on one real Model per subject, with deep state snapshots and a reference-model oracle after every call",
-         "For ~330 subjects (every registered operator as a single-node model under every caller-input / initializer role assignment, two producer->consumer compositions, the sample models) every sequence of depth <= 3 (thorough 4) over {Run(A), Run(B), Run(fresh A), failing Run (wrong rank), failing Run (missing input), Run with the previous state outputs fed back} is executed on a freshly loaded Model; after every call the outputs must equal the reference evaluation and be bit-identical to the first Run on the same values, and deep snapshots of both caller tensor sets, of every weight tensor (via the verif hook) and of the marshalled proto must equal load time.",
+         "For ~330 subjects (every registered operator as a single-node model under every caller-input / initializer role assignment, two producer->consumer compositions, the sample models) every sequence of depth <= 3 (thorough 5; 6 for compositions and sample models) over {Run(A), Run(B), Run(fresh A), failing Run (wrong rank), failing Run (missing input), Run with the previous state outputs fed back} is executed on a freshly loaded Model; after every call the outputs must equal the reference evaluation and be bit-identical to the first Run on the same values, and deep snapshots of both caller tensor sets, of every weight tensor (via the verif hook) and of the marshalled proto must equal load time.",
          "Trusted: the reference model evaluator; hx.Snapshot (shape, strides, dtype, flags, all element bits). Hook: Model.VerifParameters / VerifModelProto (build tag verif).", "DESIGN.md §3 (row C02)"),
  "C16": ("exploration", "E2/E1", "exhaustive enumeration of every batch composition (all sequences over a sample pool up to a length) for the sample models and generated per-sample models, executed by the real Model.Run and compared row by row with the solo evaluation",
          "For 119 models (sample models; every 1- and 2-stage combination of per-sample operators; Conv 1-D/2-D; RNN/GRU/LSTM with/without states; the gru.onnx wrapping) EVERY batch over a pool of 3 (thorough 4) distinct samples of length 1..3 (1..4) - i.e. all batch sizes, permutations, sub-selections and repetitions up to the bound - is run; position i of each output must equal the output of evaluating that sample alone (N=1).",
